@@ -1,10 +1,10 @@
-\* C25 reply form, exhaustive: 2 goroutines x 2 calls, plain and opaque replies across acquire, both kinds of client, with termination
+\* C25 reply form, exhaustive: 2 goroutines x 2 calls, plain and opaque replies, both kinds of client, with termination
 CONSTANTS
   G = 2
   N = 2
-  Ops = {"acq1", "qa", "qx"}
+  Ops = {"qa", "qx"}
   Mutex = TRUE
-  AutoAcquire = TRUE
+  AutoAcquire = FALSE
   RelRule = FALSE
   Hist = FALSE
   OnOpaque = {"raw", "fail"}
